@@ -275,11 +275,11 @@ theorem codedW_pos (paste : Paste) (interlaced : Bool) (k : Idx n) :
 
 example : 0 < codedW 5 .tsc true (2, 3, 0) := codedW_pos _ _ _
 
-/-- **calc_power_symmetries.**  The modelled `calc_power` (coded phase, coded window) with a TSC/CIC-like
-deposit: (1) translating all particles — of both fields, for a cross power — by whole cells leaves the
-table unchanged; (2) so does permuting the particles of either field; (3) passing the same particles as
-the second field gives the auto table; (4) `N_mode`, `N_mode_poles`, `k_avg` are the same for any two
-inputs. -/
+/-- **calc_power_symmetries.**  The modelled `calc_power` (coded phase, coded window; `none` = the
+`ZeroDivisionError` of an empty particle set) with a TSC/CIC-like deposit: (1) translating all particles —
+of both fields, for a cross power — by whole cells leaves the outcome unchanged; (2) so does permuting the
+particles of either field; (3) passing the same particles as the second field gives the auto outcome;
+(4) `N_mode`, `N_mode_poles`, `k_avg` are the same for any two accepted inputs. -/
 theorem calc_power_symmetries {Part β γ ι : Type} [DecidableEq β] [DecidableEq γ]
     {shift : Idx n → Part → Part} {D D' : List Part → Grid n}
     (hD : IsDeposit shift D) (hD' : IsDeposit shift D') (paste : Paste) (compensated interlaced : Bool)
@@ -295,38 +295,46 @@ theorem calc_power_symmetries {Part β γ ι : Type} [DecidableEq β] [Decidable
           calcPower D D' paste compensated interlaced B P' (some Q')) ∧
     calcPower D D' paste compensated interlaced B P (some P) =
       calcPower D D' paste compensated interlaced B P none ∧
-    (∀ (P' : List Part) (Q Q' : Option (List Part)),
-        (calcPower D D' paste compensated interlaced B P Q).N_mode =
-          (calcPower D D' paste compensated interlaced B P' Q').N_mode ∧
-        (calcPower D D' paste compensated interlaced B P Q).N_mode_poles =
-          (calcPower D D' paste compensated interlaced B P' Q').N_mode_poles ∧
-        (calcPower D D' paste compensated interlaced B P Q).k_avg =
-          (calcPower D D' paste compensated interlaced B P' Q').k_avg) := by
+    (∀ (P' : List Part) (Q Q' : Option (List Part)) (t t' : Table β γ ι),
+        calcPower D D' paste compensated interlaced B P Q = some t →
+        calcPower D D' paste compensated interlaced B P' Q' = some t' →
+        t.N_mode = t'.N_mode ∧ t.N_mode_poles = t'.N_mode_poles ∧ t.k_avg = t'.k_avg) := by
   refine ⟨?_, ?_, ?_, ?_, ?_⟩
   · intro s
-    simp only [calcPower]
+    simp only [calcPower, calcTable, rejects_map]
     rw [power_translation_invariant hD hD']
   · intro s Q
-    simp only [calcPower]
+    simp only [calcPower, calcTable, rejects_map₂]
     rw [cross_power_translation_invariant hD hD']
   · intro P' Q Q' hp hq
     have h1 := fun W => (power_perm_invariant hD hD' interlaced (codedPhase n) W B hp).1
     have h2 := fun W => (power_perm_invariant hD hD' interlaced (codedPhase n) W B hq).1
-    simp only [calcPower, h1, h2, and_self]
-  · simp only [calcPower]
+    simp only [calcPower, calcTable, rejects, h1, h2, isEmpty_perm hp, isEmpty_perm hq]
+    exact ⟨rfl, rfl⟩
+  · simp only [calcPower, calcTable, rejects, Bool.or_self, Bool.or_false]
     rw [cross_eq_auto]
-  · intro P' Q Q'
-    cases Q <;> cases Q' <;> exact ⟨rfl, rfl, rfl⟩
+  · intro P' Q Q' t t' h h'
+    simp only [calcPower] at h h'
+    split at h
+    · cases h
+    · split at h'
+      · cases h'
+      · cases h; cases h'
+        cases Q <;> cases Q' <;> exact ⟨rfl, rfl, rfl⟩
 
+/-- non-vacuity: an accepted (non-empty) input on the 3³ mesh, interlaced and compensated -/
 example :
-    calcPower (n := 3) ngp ngp .tsc true true
-        (⟨Finset.univ, fun k => some k.1, fun _ => some (), fun _ => 2, fun _ => 1, fun _ _ => 1⟩ :
-          Binning 3 (ZMod 3) Unit Unit)
+    let B : Binning 3 (ZMod 3) Unit Unit :=
+      ⟨Finset.univ, fun k => some k.1, fun _ => some (), fun _ => 2, fun _ => 1, fun _ _ => 1⟩
+    calcPower (n := 3) ngp ngp .tsc true true B
         ([((0, 1, 2), 1), ((2, 2, 0), 3)].map (ngpShift (2, 0, 1))) none =
-      calcPower (n := 3) ngp ngp .tsc true true
-        ⟨Finset.univ, fun k => some k.1, fun _ => some (), fun _ => 2, fun _ => 1, fun _ _ => 1⟩
-        [((0, 1, 2), 1), ((2, 2, 0), 3)] none :=
-  (calc_power_symmetries ngp_isDeposit ngp_isDeposit .tsc true true _ _).1 _
+      calcPower (n := 3) ngp ngp .tsc true true B [((0, 1, 2), 1), ((2, 2, 0), 3)] none ∧
+    (calcPower (n := 3) ngp ngp .tsc true true B [((0, 1, 2), 1), ((2, 2, 0), 3)] none).isSome = true ∧
+    calcPower (n := 3) ngp ngp .tsc true true B [] none = none := by
+  intro B
+  refine ⟨(calc_power_symmetries ngp_isDeposit ngp_isDeposit .tsc true true _ _).1 _, ?_, ?_⟩
+  · simp [calcPower, rejects]
+  · simp [calcPower, rejects]
 
 /-! ### the coded interlacing phase -/
 
